@@ -119,7 +119,8 @@ def run(ctx):
         # every destination form x marker x which-note at least once, plus a random sample
         strata = {}
         for c in cases:
-            strata.setdefault((c["dest"], c["marker"], c["zid"]), []).append(c)
+            stamped = c["src"]["body"][0]["w"][0]["c"] == "sdate"
+            strata.setdefault((c["dest"], c["marker"], c["zid"], stamped), []).append(c)
         pool = [rng.choice(v) for _, v in sorted(strata.items())] + rng.sample(cases, 260)
     else:
         pool = cases
